@@ -905,6 +905,8 @@ class Top:
         self.after = []
         self.handled_resume = False
         self.snap = None
+        self.failed_observed = set()  # failed trials the GP searcher held an observation of when they failed
+        self.model_based = False
         s = ad.searcher
         if s is not None and hasattr(s, "evaluation_failed"):
             orig = s.evaluation_failed
@@ -941,7 +943,23 @@ class Top:
 
     # ------------------------------------------------------------------ suggest
     def pre_suggest(self, vt, next_id):
+        self.model_based = bool(self.ad.family) and self._gp_model_based_phase()
         self.ad.pre_suggest(vt, next_id)
+
+    def _gp_model_based_phase(self):
+        """Will the coming get_config be a model-based choice? (documented rule: initial random choices until
+        num_init_random distinct configurations are in the state and there is at least one observation).
+        Read from the public state; qualifies counters only, never a verdict."""
+        try:
+            st = self.ad.searcher.state_transformer.state
+            if not st.trials_evaluations:
+                return False
+            ids = {x.trial_id for x in st.pending_evaluations} | set(st.failed_trials) | {e.trial_id for e in st.trials_evaluations}
+            distinct = {repr(sorted(self.proj(st.config_for_trial[i]).items())) for i in ids}
+            return len(distinct) >= self.p.get("gp_options", {}).get("num_init_random", 3)
+        except Exception:  # noqa: BLE001
+            self.o.count("probe_not_available:gp_state")
+            return False
 
     def post_suggest(self, vt, next_id, sugg, t):
         o, p, ad = self.o, self.p, self.ad
@@ -992,6 +1010,14 @@ class Top:
                 o.count("decided:new_config_vs_failed_configs")
                 if p.get("allow_duplicates"):
                     o.count("decided:new_config_vs_failed_configs:allow_duplicates")
+                    if ad.family:
+                        cell = "decided:no_resuggest_of_failed:gp:allow_duplicates"
+                        o.count(cell)
+                        if self.failed_observed:
+                            o.count(cell + ":failed_after_observation")
+                            if self.model_based:
+                                o.count(cell + ":failed_after_observation:model_based_phase")
+                                o.count(f"{cell}:failed_after_observation:model_based_phase:{p['searcher']}")
                 pc = self.proj(sugg.config)
                 for ftid, fc in self.failed_cfg.items():
                     if fc == pc:
@@ -1062,6 +1088,11 @@ class Top:
             pend0, obs0, failed0, cfg0 = self.snap
             pend1, obs1, failed1, cfg1 = _gp_snapshot(ad.searcher)
             fam = ad.family
+            if any(bool(v) for v in (obs0.get(stid) or {}).values()):
+                self.failed_observed.add(tid)
+                o.count("gp:failure_events:trial_had_observations")
+                if self.p.get("allow_duplicates"):
+                    o.count("gp:failure_events:trial_had_observations:allow_duplicates")
             d = {"failed_trial": stid, "pending_before": pend0, "pending_after": pend1, "failed_list": failed1}
             oth0 = sorted((x for x in pend0 if x[0] != stid), key=repr)
             oth1 = sorted((x for x in pend1 if x[0] != stid), key=repr)
@@ -1166,6 +1197,23 @@ def expand(spec):
             if srch == "hypertune":
                 p["searcher_data"] = "rungs"  # its independent-GP model only holds data at rung levels
             p["register_pending_myopic"] = rng.random() < 0.3
+            if rng.random() < 0.5:
+                # GP searcher with allow_duplicates=True ("we exclude configs which are pending or failed") on a
+                # small finite space: 'a failed configuration is never suggested again' is decidable and likely to
+                # be hit. The exclusion then rests on the failed list alone (observed configs are not excluded), so
+                # the trial should fail AFTER the searcher holds an observation of it, and enough suggestions must
+                # follow in the model-based phase (few initial random choices, more trials)
+                p["gp_dup"] = True
+                p["allow_duplicates"] = True
+                for _ in range(20):
+                    p["space"] = _finite_space(rng)
+                    if gen.space_size(p["space"]) >= 6:
+                        break
+                p["gp_options"]["num_init_random"] = rng.choice([2, 3])
+                p["n_trials"] = rng.randint(7, 10)
+                p["n_workers"] = min(p["n_workers"], 3)
+                if srch == "bayesopt" and point in (BT, BF):
+                    p["searcher_data"] = "all"  # every report is an observation: 'between' failures are observed
         elif srch == "random" and typ in ("stopping", "promotion") and rng.random() < 0.25:
             p["space"] = _finite_space(rng)
             p["allow_duplicates"] = True
@@ -1282,6 +1330,9 @@ def expand(spec):
     p["max_events"] = min(60 + 12 * p["n_trials"] + 3 * p["max_t"], 260 if not gp else 80)
     if gp:
         p["max_suggest"] = 2 * p["n_trials"] + 4
+    if p.get("gp_dup"):
+        p["max_suggest"] = 2 * p["n_trials"] + 8
+        p["max_events"] = 130
     p.update({k: v for k, v in spec.items() if k not in ("seed", "kind", "point", "searcher") and not k.startswith("_")})
     if "kind_exact" in spec:
         p["kind"] = spec["kind_exact"]
@@ -1316,6 +1367,7 @@ def run_engine_b(spec):
     rng = _r.Random(spec["seed"] + 17)
     p["max_failures"] = rng.choice([1, 3, 100])
     plan = {f"{rng.randint(0, 8)}:{rng.choice([0, 0, 1, 1])}": rng.randint(0, 3) for _ in range(rng.randint(1, 3))}
+    p["sjwd"] = True  # start_jobs_without_delay=False is the subject of the open finding C01-K1
     if spec["backend"] == "proc":
         p["delete_checkpoints"] = False
         p["plan"].pop("fail", None)
@@ -1349,12 +1401,13 @@ def run_engine_b(spec):
     elif r.exc is None and n_fail > 0:
         o.count("B:runs_carried_on_after_failure")
     sub = Obs()
-    sig = c01.check_trace(sub, r.rec.events, p["n_workers"], True, spec["kind"], exc=r.exc)
+    sig = c01.check_trace(sub, r.rec.events, p["n_workers"], True, spec["kind"], exc=r.exc, failure_must_be_notified=True)
     for v in sub.violations:
         o.violate(v["clause"], "B:" + v["mechanism"], v["detail"])
     o.count("B:end_notifications_decided", sub.counters.get("decided:end_notifications", 0))
     o.count("B:external_stops_notified", sub.counters.get("external_stops_notified", 0))
     o.count("B:failures_notified", sub.counters.get("failures_notified", 0))
+    o.count("B:decided:failed_status_notified", sub.counters.get("decided:failed_status_notified", 0))
     o.set_sig(("B", spec["kind"], sig), nontrivial=n_fail > 0)
     o.sample = {"engine": "B", "kind": spec["kind"], "backend": spec["backend"], "on_trial_error_calls": n_fail,
                 "trace": ["%s%d" % s_ for s_ in sig[:25]]}
